@@ -3,6 +3,9 @@
    add_file of "cé"; FILENAME_MAX_SIZE = 48, source tags, SHA-256, footer in reverse order;
    read through a throttled stream delivering 1, 3, 2, 2, ... bytes per read), and the
    evaluated linear extraction of strict subsets of its names. *)
+From MLA Require Import Limit.
+From MLAGen Require Src.
+#[local] Instance EX_LIMIT : Limit := MLAGen.Src.BINCODE_MAX_DESERIALIZE_prod.
 From MLA Require Import Base Stream Blocks Writer Reader LinearProofs RoundTripBlocks RoundTripFooter
   RoundTripReader RoundTripWriter RoundTripRun RoundTripGlue RoundTrip RoundTripInst Sink SinkProofs
   LinearRoundTripDefs LinearRoundTripPure LinearRoundTrip Inst.
